@@ -119,6 +119,74 @@ theorem seqOpt_isNone_iff {α} (l : List (Option α)) : seqOpt l = none ↔ ∃ 
         · cases hx
         · exact ⟨none, hx, rfl⟩
 
+theorem bcastN_nil_right : ∀ (l : List Int), bcastN l.length l [] = some l
+  | [] => rfl
+  | a :: t => by
+    simp only [List.length_cons, bcastN, List.headD_cons, List.headD_nil, List.tail_cons, List.tail_nil,
+      bdim_one_right, Option.bind_some, bcastN_nil_right t, Option.map_some]
+
+theorem bcastN_nil_left : ∀ (l : List Int), bcastN l.length [] l = some l
+  | [] => rfl
+  | a :: t => by
+    simp only [List.length_cons, bcastN, List.headD_cons, List.headD_nil, List.tail_cons, List.tail_nil,
+      bdim_one_left, Option.bind_some, bcastN_nil_left t, Option.map_some]
+
+theorem broadcast_nil_right (l : List Int) : broadcast l [] = some l := by
+  have := bcastN_nil_right l.reverse
+  simp only [List.length_reverse] at this
+  simp only [broadcast, List.length_nil, Nat.max_zero, List.reverse_nil, this, Option.map_some, List.reverse_reverse]
+
+theorem broadcast_nil_left (l : List Int) : broadcast [] l = some l := by
+  have := bcastN_nil_left l.reverse
+  simp only [List.length_reverse] at this
+  simp only [broadcast, List.length_nil, Nat.zero_max, List.reverse_nil, this, Option.map_some, List.reverse_reverse]
+
+theorem broadcast_length {a b t : List Int} (h : broadcast a b = some t) : t.length = max a.length b.length := by
+  simp only [broadcast, Option.map_eq_some_iff] at h
+  obtain ⟨r, hr, rfl⟩ := h
+  simp only [List.length_reverse, bcastN_length _ _ _ _ hr]
+
+/-! ### `UnnamedNonneg` is established by `Shape` and preserved by slicing, gathering, concatenation -/
+
+theorem unnamedNonneg_of_nonneg : ∀ (s : Shape) (l : List Int), (∀ v ∈ l, 0 ≤ v) → UnnamedNonneg s l
+  | [], _, _ => by simp only [UnnamedNonneg]
+  | _ :: _, [], _ => by simp only [UnnamedNonneg]
+  | d :: s, v :: l, h => by
+    simp only [UnnamedNonneg]
+    exact ⟨fun _ => h v (List.mem_cons_self ..), unnamedNonneg_of_nonneg s l (fun w hw => h w (List.mem_cons_of_mem _ hw))⟩
+
+theorem unnamedNonneg_append : ∀ {s1 s2 : Shape} {l1 l2 : List Int}, s1.length = l1.length →
+    UnnamedNonneg s1 l1 → UnnamedNonneg s2 l2 → UnnamedNonneg (s1 ++ s2) (l1 ++ l2)
+  | [], _, [], _, _, _, h2 => by simpa only [List.nil_append] using h2
+  | [], _, _ :: _, _, hl, _, _ => by simp only [List.length_nil, List.length_cons] at hl; omega
+  | _ :: _, _, [], _, hl, _, _ => by simp only [List.length_nil, List.length_cons] at hl; omega
+  | d :: s1, s2, v :: l1, l2, hl, h1, h2 => by
+    simp only [UnnamedNonneg] at h1
+    simp only [List.cons_append, UnnamedNonneg]
+    exact ⟨h1.1, unnamedNonneg_append (by simpa using hl) h1.2 h2⟩
+
+theorem unnamedNonneg_getElem? : ∀ (n : Nat) {s : Shape} {l : List Int} {d : Dim} {v : Int}, UnnamedNonneg s l →
+    s[n]? = some d → l[n]? = some v → d = .unknown → 0 ≤ v
+  | _, [], _, _, _, _, h, _, _ => by simp only [List.getElem?_nil] at h; cases h
+  | _, _ :: _, [], _, _, _, _, h, _ => by simp only [List.getElem?_nil] at h; cases h
+  | 0, d' :: s, w :: l, d, v, hu, hd, hv, he => by
+    simp only [UnnamedNonneg] at hu
+    simp only [List.getElem?_cons_zero, Option.some.injEq] at hd hv
+    subst hd; subst hv; exact hu.1 he
+  | n + 1, d' :: s, w :: l, d, v, hu, hd, hv, he => by
+    simp only [UnnamedNonneg] at hu
+    simp only [List.getElem?_cons_succ] at hd hv
+    exact unnamedNonneg_getElem? n hu.2 hd hv he
+
+theorem unnamedNonneg_pyIndex {s : Shape} {l : List Int} {d : Dim} {v : Int} (hl : s.length = l.length)
+    (hu : UnnamedNonneg s l) (i : Int) (hd : pyIndex s i = some d) (hv : pyIndex l i = some v) (he : d = .unknown) :
+    0 ≤ v := by
+  simp only [pyIndex, hl] at hd hv
+  by_cases hneg : (if i < 0 then i + (l.length : Int) else i) < 0
+  · simp only [hneg, if_true] at hd; cases hd
+  · simp only [hneg, if_false] at hd hv
+    exact unnamedNonneg_getElem? _ hu hd hv he
+
 theorem admits_map_known_self (σ : String → Nat) : ∀ (t : List Int), Admits σ (t.map Dim.known) t
   | [] => by simp only [List.map_nil, Admits]
   | a :: t => by simp only [List.map_cons, Admits, Dim.Admits, true_and]; exact admits_map_known_self σ t
